@@ -106,18 +106,50 @@ def concretise(exps, grid, ivs, fluxkind, period=40.0, level=10.0, noise=None):
     return np.vstack(lls), np.vstack(fls), np.vstack(ivs), newll
 
 
-def run_call(inll, flux, newll, ivar, method):
-    """One real call; never lets the caller's arrays be modified.  Returns (flux, ivar, exception text)."""
+# Memory-layout variants of the same VALUES (Resample.tla: the outcome depends on the values only).
+VARIANTS = ['plain', 'readonly', 'strided', 'swapped', 'zerod']
+
+
+def as_variant(a, variant, readonly_ok=True, flip=False):
+    """The values of `a` as a fresh array with the given memory property."""
+    a = np.array(a, copy=True)
+    if variant == 'readonly':
+        if readonly_ok:
+            a.setflags(write=False)
+        return a
+    if variant == 'strided':
+        if a.ndim == 1:
+            big = np.zeros(2 * a.size + 1, dtype=a.dtype)
+            big[1::2] = a
+            return big[1::2]                     # every second element of a longer array
+        if flip:
+            return np.asfortranarray(a)          # Fortran-ordered (transposed memory)
+        big = np.zeros((a.shape[0], 2 * a.shape[1]), dtype=a.dtype)
+        big[:, ::2] = a
+        return big[:, ::2]
+    if variant == 'swapped':
+        return a.astype(a.dtype.newbyteorder())  # as read from a FITS file
+    return a
+
+
+def run_call(inll, flux, newll, ivar, method, variant='plain', noiseless=True):
+    """One real call; never lets the caller's arrays be modified.  Returns (flux, ivar, exception text).
+    variant: memory layout of the arguments.  A read-only objivar is only handed over when nothing has to be written into
+    it: 1-D and noiseless (the 2-D branch median-smooths the caller's objivar in place, rejected outliers are zeroed in it)."""
     from pydl.pydlspec2d.spec2d import combine1fiber
     kw = {}
     if method is not None:
         kw['aesthetics'] = method
     if ivar is not None:
-        kw['objivar'] = ivar.copy()
+        kw['objivar'] = as_variant(ivar, variant, readonly_ok=(ivar.ndim == 1 and noiseless), flip=bool(ivar.size % 2))
+    if variant == 'zerod':
+        kw['binsz'] = np.array(inll.flat[1] - inll.flat[0])      # 0-d array where a scalar is admitted (the default value)
+    flip = bool(inll.size % 2)
     try:
         with warnings.catch_warnings(), np.errstate(all='ignore'):
             warnings.simplefilter('ignore')
-            f, v = combine1fiber(inll.copy(), flux.copy(), newll.copy(), **kw)
+            f, v = combine1fiber(as_variant(inll, variant, flip=flip), as_variant(flux, variant, flip=flip),
+                                 as_variant(newll, variant), **kw)
     except Exception as ex:
         return None, None, '%s: %s' % (type(ex).__name__, str(ex)[:140])
     return np.asarray(f), np.asarray(v), None
@@ -158,6 +190,8 @@ def classify(clause, detail, method, use_ivar, no_good_output):
         return 'D-C11-3'
     if clause == 'raised' and method == 'damp' and detail.startswith('ValueError: zero-size array'):
         return 'D-C11-3'
+    if clause == 'raised' and 'is not supported by medfilt' in detail:
+        return 'D-C11-6'
     return None
 
 
@@ -215,10 +249,11 @@ def describe_exposure(e):
     return txt if e['sh'][0] == 0 else '%s offset %s' % (txt, '/'.join(map(str, e['sh'])) if e['sh'][1] != 1 else e['sh'][0])
 
 
-def mc_run_one(ctx, rep, case, method, use_ivar, fluxkind, stats):
+def mc_run_one(ctx, rep, case, method, use_ivar, fluxkind, stats, variant='plain'):
     """Execute one call of a TLC case and judge it; returns True if it conforms."""
     inll, flux, ivar, newll = mc_arrays(case, fluxkind)
-    f, v, exc = run_call(inll, flux, newll, ivar if use_ivar else None, method)
+    f, v, exc = run_call(inll, flux, newll, ivar if use_ivar else None, method, variant)
+    stats['variant_' + variant] += 1
     mz = set(case['mz'])
     ivx = [float(frac(q)) for q in case['ivx']] if (case['ivx'] and use_ivar) else None
     probs = judge(f, v, exc, case['grid']['count'], mz, ivx)
@@ -235,10 +270,10 @@ def mc_run_one(ctx, rep, case, method, use_ivar, fluxkind, stats):
             ctx.nontriv((case['family'], case['pat'], case['pat2'], case['g']))
     for clause, detail in probs:
         no_good_out = v is not None and not (v > 0).any()
-        call = dict(case, method=method, use_ivar=use_ivar, flux=fluxkind)
-        call['what'] = ('combine1fiber on pattern %s -> grid %s (aesthetics=%s, objivar %s): %s: %s' % (
+        call = dict(case, method=method, use_ivar=use_ivar, flux=fluxkind, variant=variant)
+        call['what'] = ('combine1fiber on pattern %s -> grid %s (aesthetics=%s, objivar %s, %s arrays): %s: %s' % (
             '+'.join(describe_exposure(e) for e in case['exps']),
-            case['grid'], method, 'given' if use_ivar else 'absent', clause, detail))
+            case['grid'], method, 'given' if use_ivar else 'absent', variant, clause, detail))
         call['clause'] = clause
         rep.report('replay-' + case['family'], clause, call, classify(clause, detail, method, use_ivar, no_good_out))
     return not probs
@@ -274,15 +309,16 @@ def run_mc(ctx, rep):
         case = mc_case(st)
         fluxkind = 'smooth' if n % 2 else 'const'
         method = METHODS[n % len(METHODS)]
-        good = mc_run_one(ctx, rep, case, method, True, fluxkind, stats)
+        variant = VARIANTS[(n + ctx.seed) % len(VARIANTS)]      # layout variants rotate over the cases, by seed
+        good = mc_run_one(ctx, rep, case, method, True, fluxkind, stats, variant)
         allgood = len(case['exps']) == 1 and '0' not in case['exps'][0]['good']
         if allgood:
             for m in METHODS:       # without inverse variance: every pixel has unit weight
-                mc_run_one(ctx, rep, case, m, False, fluxkind, stats)
+                mc_run_one(ctx, rep, case, m, False, fluxkind, stats, variant)
         if n % 11 == 0 and kind not in ('pairinfl', 'stack', 'edge'):
             for m in METHODS:
                 if m != method:
-                    mc_run_one(ctx, rep, case, m, True, fluxkind, stats)
+                    mc_run_one(ctx, rep, case, m, True, fluxkind, stats, VARIANTS[(n // 11 + METHODS.index(m)) % len(VARIANTS)])
         if sampled < 3 and good and case['mz'] and len(case['mz']) < case['grid']['count'] and kind != 'single':
             sampled += 1
             ctx.sample({'tlc_case': {'family': case['family'], 'pattern': case['pat'], 'block': len(case['exps'][0]['good']),
@@ -398,8 +434,9 @@ def item_resample(sub, quick):
     garbage = use_ivar and rng.random() < 0.15
     if garbage:        # masked pixels of real data hold arbitrary values
         flux = np.where(ivar > 0, flux, rng.choice([float('nan'), float('inf'), -1.0e30]))
-    f, v, exc = run_call(inll, flux, newll, ivar if use_ivar else None, method)
-    desc = {'kind': 'resample', 'sub': sub, 'garbage_under_mask': garbage, 'quick': quick, 'n': n, 'nexp': nexp, 'grid': grid, 'gridkind': gkind, 'method': method,
+    variant = VARIANTS[sub % len(VARIANTS)]
+    f, v, exc = run_call(inll, flux, newll, ivar if use_ivar else None, method, variant, noiseless=False)
+    desc = {'kind': 'resample', 'sub': sub, 'garbage_under_mask': garbage, 'variant': variant, 'quick': quick, 'n': n, 'nexp': nexp, 'grid': grid, 'gridkind': gkind, 'method': method,
             'use_ivar': use_ivar, 'shifts': [[s.numerator, s.denominator] for s in shifts]}
     if exc:
         return None, desc, ('raised', exc), None
@@ -431,12 +468,13 @@ def item_law(sub, quick):
         ivs.append(iv / 4.0)
     exps = [(tuple(bool(x > 0) for x in ivs[e]), shifts[e]) for e in range(nexp)]
     plain = [m for m in METHODS if m != 'damp']       # 'damp' tapers the whole spectrum by design
-    desc = {'kind': 'law', 'sub': sub, 'quick': quick, 'n': n, 'nexp': nexp, 'period': period}
+    variant = VARIANTS[(sub // 3) % len(VARIANTS)]
+    desc = {'kind': 'law', 'sub': sub, 'quick': quick, 'n': n, 'nexp': nexp, 'period': period, 'variant': variant}
     recs, errs = [], []
 
     def call(grid, kind, ivl, method, level=10.0, mult=1.0):
         inll, flux, ivar, newll = concretise(exps, grid, ivl, kind, period=float(period), level=level)
-        return run_call(inll, flux * mult, newll, ivar, method)
+        return run_call(inll, flux * mult, newll, ivar, method, variant)
 
     # physical units: the same spectrum expressed in units 10^uexp times smaller (flux * u, ivar / u^2), e.g. SDSS
     # 1e-17 erg/s/cm^2/A written out in cgs.  Cycled deterministically so that every run holds small units.
@@ -470,6 +508,21 @@ def item_law(sub, quick):
         dev = float(np.abs(f / u - level)[g].max()) / level if g.any() else 0.0
         recs.append({'kind': 'law', 'law': 'const', 'devppb': scaled(dev, 1e9), 'ngood': int(g.sum()), 'method': m or 'default', 'unit_exp10': uexp,
                      'nexp': nexp})
+    # aesthetics() called directly: the same values in another memory layout give the same cleaned-up spectrum
+    if variant != 'plain':
+        from pydl.pydlspec2d.spec2d import aesthetics
+        fl = curve(np.arange(n, dtype='d'), 'smooth', float(period))
+        for m in METHODS[1:]:
+            try:
+                with warnings.catch_warnings(), np.errstate(all='ignore'):
+                    warnings.simplefilter('ignore')
+                    ref = np.asarray(aesthetics(fl.copy(), ivs[0].copy(), m))
+                    got = np.asarray(aesthetics(as_variant(fl, variant), as_variant(ivs[0], variant), m))
+                same = got.shape == ref.shape and bool(np.isfinite(got).all())
+                dev = float(np.abs(got - ref).max() / np.abs(ref).max()) if same else float('inf')
+                recs.append({'kind': 'law', 'law': 'layout', 'fn': 'aesthetics', 'devppb': scaled(dev, 1e9), 'method': m, 'variant': variant})
+            except Exception as ex:
+                errs.append(('layout', m, 'aesthetics(%s arrays): %s: %s' % (variant, type(ex).__name__, str(ex)[:120])))
     # scaling (single exposure: the 2-D branch smooths the variance before the fit, the law is the same but costly)
     if nexp == 1:
         grid, _ = random_grid(rng, n)
@@ -528,13 +581,20 @@ def item_shift(sub, quick):
     elif mode == 'given-offset':
         kw['newloglam'] = LL0 + DLL * (np.arange(ncount, dtype='d') + o1 + off)
     aes = rng.choice(['mean', 'traditional', 'noconst', 'nothing'])
-    desc = {'kind': 'shift', 'sub': sub, 'quick': quick, 'nobj': nobj, 'n': n, 'k0': k0, 'm': m, 'o1': o1, 'mode': mode, 'aesthetics': aes,
+    variant = VARIANTS[sub % len(VARIANTS)]
+    if variant == 'zerod' and mode == 'derived':      # 0-d arrays where scalars are admitted; far outside the data, so without effect
+        kw['wavemin'] = np.array(10.0 ** (LL0 + DLL * (o1 - 500)))
+        kw['wavemax'] = np.array(10.0 ** (LL0 + DLL * (o1 + n + 500)))
+    if 'newloglam' in kw:
+        kw['newloglam'] = as_variant(kw['newloglam'], variant)
+    desc = {'kind': 'shift', 'sub': sub, 'quick': quick, 'variant': variant, 'nobj': nobj, 'n': n, 'k0': k0, 'm': m, 'o1': o1, 'mode': mode, 'aesthetics': aes,
             'loglam2d': two_d}
     try:
         with warnings.catch_warnings(), np.errstate(all='ignore'):
             warnings.simplefilter('ignore')
-            ff, ii, nl = preprocess_spectra(flux.copy(), ivar.copy(), loglam=(np.tile(ll, (nobj, 1)) if two_d else ll.copy()),
-                                            zfit=z, aesthetics=aes, **kw)
+            ff, ii, nl = preprocess_spectra(as_variant(flux, variant, flip=bool(sub % 2)), as_variant(ivar, variant, flip=bool(sub % 2)),
+                                            loglam=as_variant(np.tile(ll, (nobj, 1)) if two_d else ll, variant, flip=bool(sub % 2)),
+                                            zfit=as_variant(z, variant), aesthetics=aes, **kw)
     except Exception as ex:
         return [], desc, [('shift', aes, '%s: %s' % (type(ex).__name__, str(ex)[:140]))]
     recs = []
@@ -582,8 +642,9 @@ def run_trace(ctx, rep):
         ctx.evaluated(1, 'recorded-resample')
         ctx.validated()
         if err:
-            desc['what'] = 'combine1fiber on a %d-pixel spectrum (%d exposure(s), grid %s, aesthetics=%s, objivar %s) %s: %s' % (
-                desc['n'], desc['nexp'], desc['gridkind'], desc['method'], 'given' if desc['use_ivar'] else 'absent', err[0], err[1])
+            desc['what'] = 'combine1fiber on a %d-pixel spectrum (%d exposure(s), grid %s, aesthetics=%s, objivar %s, %s arrays) %s: %s' % (
+                desc['n'], desc['nexp'], desc['gridkind'], desc['method'], 'given' if desc['use_ivar'] else 'absent', desc['variant'],
+                err[0], err[1])
             rep.report('recorded-resample', err[0], desc, classify(err[0], err[1], desc['method'], desc['use_ivar'], False))
             continue
         records.append(rec)
@@ -616,8 +677,8 @@ def run_trace(ctx, rep):
             ctx.nontriv(('shift', sub, r['k0'], r['m']))
         for law, m, exc in errs:
             d = dict(desc, law=law)
-            d['what'] = 'preprocess_spectra(%d objects x %d pixels, aesthetics=%s, newloglam %s) raised %s' % (
-                desc['nobj'], desc['n'], m, desc['mode'], exc)
+            d['what'] = 'preprocess_spectra(%d objects x %d pixels, aesthetics=%s, newloglam %s, %s arrays) raised %s' % (
+                desc['nobj'], desc['n'], m, desc['mode'], desc['variant'], exc)
             ctx.evaluated(1, 'law-shift')
             known = ('D-C11-5' if desc['mode'] == 'derived' and desc['loglam2d'] and exc.startswith(('TypeError: only 0-dimensional', 'IndexError: index 1 is out of bounds'))
                      else classify('raised', exc, m, True, False))
@@ -679,6 +740,10 @@ def run(ctx):
         'overflow (1e308), larger c because the function compares the smoothed inverse variance with an absolute float32 eps',
         'the "edge" family and 40 % of the recorded stacks put exactly 101, 102 or 103 good pixels into an exposure (the lower edge of '
         'the stated domain "at least 101 good pixels each")',
+        'memory layout: every argument array is also handed over read-only, as a non-contiguous view (strided / Fortran order), '
+        'byte-swapped, and binsz / wavemin / wavemax as 0-d arrays, rotated over the cases by seed; expectations are TLC\'s for the values. '
+        'A read-only objivar is used only for 1-D noiseless input: the 2-D branch median-smooths the caller\'s objivar in place and '
+        'rejected outliers are zeroed in it (known in-place behaviour, so read-only is left out there); finalmask is not exercised',
         'SPPIXMASK bit numbers come from a generated parameter file read by pydl\'s own set_maskbits']
     load_maskbits(ctx)
     rep = Reporter(ctx)
@@ -699,7 +764,8 @@ def replay(ctx, case):
     ctx.nontriv('b')
     if 'family' in case:
         stats = collections.Counter()
-        ok = mc_run_one(ctx, rep, case, case.get('method'), case.get('use_ivar', True), case.get('flux', 'smooth'), stats)
+        ok = mc_run_one(ctx, rep, case, case.get('method'), case.get('use_ivar', True), case.get('flux', 'smooth'), stats,
+                        case.get('variant', 'plain'))
         print('replayed TLC case %s pattern %d grid %s aesthetics=%s: %s' % (case['family'], case['pat'], case['grid'], case.get('method'),
                                                                              'conforms' if ok else 'VIOLATES'))
         return
